@@ -187,6 +187,7 @@ func runRTW(side string, pk []pkt, sizes []int) (caseStr, obs string) {
 	case obs = <-res:
 	case <-time.After(15 * time.Second):
 		obs = "timeout"
+		timeouts++
 	}
 	reader.Close()
 	rawWriter.Close()
@@ -200,6 +201,7 @@ func emitRTW(out *vc.Out, side string, pk []pkt, sizes []int, kind string) {
 		key = side + keyOf(pk, sizes)
 	}
 	out.Case(c, o, key)
+	abortIfStuck(out)
 	out.Count("ws:" + kind)
 }
 
